@@ -94,6 +94,10 @@ def do_run(ids, tier="quick", all_checks=False):
                 res[p] = {"rc": rc, "violation": line}
             results[sid] = res
             print(sid, json.dumps(res))
+            # keep the last observed outcome next to the seeded change
+            allres = json.loads((SEEDED / "results.json").read_text()) if (SEEDED / "results.json").exists() else {}
+            allres.setdefault(sid, {}).update({p: ("caught: " + r["violation"].split(" replay=")[0] + (" (no-failing-input-found)" if "no-failing-input" in r["violation"] else "")) if r["rc"] == 1 else ("exit 2" if r["rc"] == 2 else "not caught") for p, r in res.items()})
+            (SEEDED / "results.json").write_text(json.dumps(allres, indent=1, sort_keys=True) + "\n")
         finally:
             drop(wt)
     return results
@@ -104,7 +108,7 @@ if __name__ == "__main__":
         do_import(sys.argv[2], sys.argv[3])
     elif sys.argv[1] == "run":
         ids = sys.argv[2:] or sorted(p.name for p in SEEDED.iterdir() if p.is_dir())
-        do_run(ids)
+        do_run(ids, tier=os.environ.get("SEEDED_TIER", "quick"))
     elif sys.argv[1] == "runall":
         ids = sys.argv[2:] or sorted(p.name for p in SEEDED.iterdir() if p.is_dir())
         do_run(ids, all_checks=True)
